@@ -140,7 +140,9 @@ pub struct PoolImpl {
     /// Keeps track of which slots are finalized.
     finality_tracker: FinalityTracker,
     /// Keeps track of safe-to-notar blocks waiting for a parent certificate.
-    s2n_waiting_parent_cert: BTreeMap<BlockId, BlockId>,
+    ///
+    /// Several blocks may wait for the same parent (e.g. an equivocating leader's siblings).
+    s2n_waiting_parent_cert: BTreeMap<BlockId, Vec<BlockId>>,
 
     /// Information about all active validators.
     epoch_info: Arc<ValidatorEpochInfo>,
@@ -202,15 +204,19 @@ impl PoolImpl {
                 }
 
                 // potentially notify child waiting for safe-to-notar
-                if let Some((child_slot, child_hash)) =
-                    self.s2n_waiting_parent_cert.remove(&block_id)
-                    && let Some(output) = self
+                for (child_slot, child_hash) in self
+                    .s2n_waiting_parent_cert
+                    .remove(&block_id)
+                    .unwrap_or_default()
+                {
+                    if let Some(output) = self
                         .slot_state(child_slot)
                         .notify_parent_certified(child_hash)
-                {
-                    match output {
-                        Either::Left(event) => self.send_votor_event(event).await,
-                        Either::Right((slot, hash)) => self.send_repair((slot, hash)).await,
+                    {
+                        match output {
+                            Either::Left(event) => self.send_votor_event(event).await,
+                            Either::Right((slot, hash)) => self.send_repair((slot, hash)).await,
+                        }
                     }
                 }
 
@@ -589,7 +595,10 @@ impl Pool for PoolImpl {
             }
             return;
         }
-        self.s2n_waiting_parent_cert.insert(parent_id, block_id);
+        let waiting = self.s2n_waiting_parent_cert.entry(parent_id).or_default();
+        if !waiting.contains(&block_id) {
+            waiting.push(block_id);
+        }
     }
 
     /// Triggers a recovery from a standstill.
